@@ -16,8 +16,8 @@ import vp
 CONC = {"i1a": {"$i64": "1"}, "i1b": {"$u64": "1"}, "i2": 2, "sa": "a", "sb": "b", "nn": None,
         "m1": {"k": 1, "id": "m1"}, "m2": {"k": {"$u64": "1"}, "id": "m2"}, "m3": {"k": 2, "id": "m3"}, "ms": {"k": "a", "id": "ms"},
         "mx": {"id": "mx"}, "mn": {"k": None, "id": "mn"}, "ar": [1], "ax": [1, "a"], "a13": [1, 3], "a2": [2],
-        "m0": {}, "mxz": {"id": "mx", "zz": 1}, "aq": [{"q": 1}], "aq2": [{"q": 1}, 2]}          # m0 = {} and mxz = mx plus a key sorting last: "prefix" maps of mx
-SHOWN = {"i1a": "1", "i1b": "1", "i2": "2", "sa": "a", "sb": "b", "nn": "N", "ar": "A1", "ax": "A1a", "a13": "A13", "a2": "A2", "m0": "M0", "mxz": "mxz", "aq": "A{\"q\": 1}", "aq2": "A{\"q\": 1}2"}
+        "m0": {}, "mxz": {"id": "mx", "zz": 1}, "aq": [{"q": 1}], "aq2": [{"q": 1}, 2], "in1": {"$i64": "-1"}, "mk": {"k": {"$i64": "-1"}, "id": "mk"}}          # m0 = {} and mxz = mx plus a key sorting last: "prefix" maps of mx
+SHOWN = {"i1a": "1", "i1b": "1", "i2": "2", "sa": "a", "sb": "b", "nn": "N", "ar": "A1", "ax": "A1a", "a13": "A13", "a2": "A2", "m0": "M0", "mxz": "mxz", "aq": "A{\"q\": 1}", "aq2": "A{\"q\": 1}2", "in1": "-1"}
 ITEM = ("{% if e is map %}{% if e | length == 0 %}M0{% elif e.zz is defined %}mxz{% else %}{{ e.id }}{% endif %}{% elif e is array %}A{{ e | join }}"
         "{% elif e is none %}N{% else %}{{ e }}{% endif %},")
 
@@ -37,7 +37,7 @@ def run(tier):
         f.write(open(vp.SPEC + "/MC_Builtins.cfg").read().replace("MaxLen = 3", "MaxLen = %d" % maxlen).replace("INVARIANT InvObs\n", ""))
     r = vp.tlc("MC_Builtins", "MC_Builtins_run", env={"OBS": ""}, workers=8, timeout=3000, name="c16")
     C.add_tlc(r, "MC_Builtins MaxLen=%d" % maxlen)
-    C.cov["rule"] = ("all arrays of length <= %d over 20 abstract elements x 9 filter families; plus random long arrays checked by contract; "
+    C.cov["rule"] = ("all arrays of length <= %d over 22 abstract elements x 9 filter families; plus random long arrays checked by contract; "
                      "non-trivial = distinct (array, filter) with a specified outcome and a non-empty array" % maxlen)
     jobs, meta = [], []
     for v in r.tags["VEC"]:
@@ -64,11 +64,14 @@ def run(tier):
     for s in ("", "a", "a,b", ",", "a,,b", ",a,", "é,世"):
         jobs.append({"ctx": {"s": s}, "steps": [{"op": "render_str", "src": "{{ s | split(pat=',') | join(sep=',') == s }},{{ s | split(pat=',') | length }}", "auto": False}]})
         meta.append(([s], "split/join", "split-join", "true,%d" % len(s.split(","))))
-    for m in ({}, {"a": 1}, {"a": 1, "b": "x", "c": [1]}, {"$map": [[1, "i"], ["1", "s"], [True, "b"]]}):
-        src = "{% for p in m | pairs %}{{ m[p[0]] == p[1] }},{% endfor %}|{{ m | keys | length == m | length }},{{ m | values | length == m | length }},{{ m | pairs | length }}"
+    for m in ({}, {"a": 1}, {"a": 1, "b": "x", "c": [1]}, {"$map": [[1, "i"], ["1", "s"], [True, "b"]]}, {k_: i_ for i_, k_ in enumerate("qwertyuiopasdf")},
+              {"$map": [[{"$i64": str(i_ - 5)}, i_] for i_ in range(12)]}):
+        # pairs agree with lookups; keys, values and pairs agree with one another POSITION BY POSITION (whatever the order is)
+        src = ("{% for p in m | pairs %}{{ m[p[0]] == p[1] }},{% endfor %}|{{ m | keys | length == m | length }},{{ m | values | length == m | length }},{{ m | pairs | length }}|"
+               "{% set ks = m | keys %}{% set vs = m | values %}{% set ps = m | pairs %}{% for k in ks %}{{ m[k] == vs[loop.index0] and ps[loop.index0][0] == k and ps[loop.index0][1] == vs[loop.index0] }},{% endfor %}")
         n = len(m["$map"]) if "$map" in m else len(m)
         jobs.append({"ctx": {"m": m}, "steps": [{"op": "render_str", "src": src, "auto": False}]})
-        meta.append(([str(m)], "keys/values/pairs", src, "true," * n + "|true,true,%d" % n))
+        meta.append(([str(m)], "keys/values/pairs", src, "true," * n + "|true,true,%d|" % n + "true," * n))
     # argument values at and beyond the edges ("all argument values"): value or error, never a panic
     EDGE = [-1, 0, {"$i128": str(2**100)}, {"$u128": str(2**128 - 1)}, {"$i64": str(-2**63)}, {"$f64": "1e30"}, {"$f64": "nan"}, None, "x", "", [1], {"$undef": 1}]
     for xs_ in ([], [1, 2, 3], [{"k": 1}, {"k": None}], "abc"):
